@@ -28,9 +28,10 @@ import (
 
 // APlan is one attestation world.
 type APlan struct {
-	Bits      int     `json:"bits"`       // RSA device key size; 0: ECDSA device key
-	Chain     string  `json:"chain"`      // root | second_root | other_ca | lookalike_ca (foreign CA carrying the first root's name) | self_signed
-	DevWindow string  `json:"dev_window"` // valid | expired | not_yet | lapsing
+	Bits      int     `json:"bits"`              // RSA device key size; 0: ECDSA device key
+	KeyTag    string  `json:"key_tag,omitempty"` // a special device key instead (public exponent 3 / 17 / 257, modulus of 5120 / 8192 bits)
+	Chain     string  `json:"chain"`             // root | second_root | other_ca | lookalike_ca (foreign CA carrying the first root's name) | self_signed
+	DevWindow string  `json:"dev_window"`        // valid | expired | not_yet | lapsing
 	LapseSec  int64   `json:"lapse_sec"`
 	Hash      string  `json:"hash"`    // sha1 | sha256 | sha384 | sha512 | md5
 	Label     string  `json:"label"`   // rsa (matching the hash) | md2 | md5 | ecdsa | dsa | unknown | pss | rsa_other (RSA label of another hash)
@@ -72,6 +73,14 @@ func genA(r *sim.Rng, tier string) any {
 	if tier == "quick" && p.Bits > 2048 && r.Bool(0.7) {
 		p.Bits = 2048
 	}
+	if p.Bits != 0 {
+		switch {
+		case r.Bool(0.08):
+			p.KeyTag = pick(r, []string{"e3-1024", "e3-2048", "e17-2048", "e257-1536"})
+		case r.Bool(0.012) || (tier != "quick" && r.Bool(0.03)):
+			p.KeyTag = pick(r, []string{"b5120", "b8192"})
+		}
+	}
 	if r.Bool(0.2) {
 		p.Label = pick(r, []string{"md2", "md5", "ecdsa", "dsa", "unknown", "pss", "rsa_other", "ed25519"})
 		if p.Label == "md5" && r.Bool(0.7) {
@@ -110,9 +119,14 @@ func shrinkA(raw json.RawMessage) []json.RawMessage {
 			emit(q)
 		}
 	}
-	if p.Bits > 1024 {
+	if p.Bits > 1024 && p.KeyTag == "" {
 		q := p
 		q.Bits = 1024
+		emit(q)
+	}
+	if p.KeyTag != "" {
+		q := p
+		q.KeyTag = ""
 		emit(q)
 	}
 	if p.Chain != "root" {
@@ -279,6 +293,25 @@ func buildEM(p *APlan, k int, tbs []byte) (em []byte, wellFormed bool, ok bool) 
 	return em, wellFormed, true
 }
 
+// rsaPrivate computes m^d mod N with the Chinese remainder theorem (large keys would otherwise dominate the run).
+func rsaPrivate(k *rsa.PrivateKey, m *big.Int) *big.Int {
+	if len(k.Primes) != 2 {
+		return new(big.Int).Exp(m, k.D, k.N)
+	}
+	p, q := k.Primes[0], k.Primes[1]
+	one := big.NewInt(1)
+	dp := new(big.Int).Mod(k.D, new(big.Int).Sub(p, one))
+	dq := new(big.Int).Mod(k.D, new(big.Int).Sub(q, one))
+	m1 := new(big.Int).Exp(m, dp, p)
+	m2 := new(big.Int).Exp(m, dq, q)
+	qinv := new(big.Int).ModInverse(q, p)
+	h := new(big.Int).Sub(m1, m2)
+	h.Mul(h, qinv)
+	h.Mod(h, p)
+	h.Mul(h, q)
+	return h.Add(h, m2)
+}
+
 func execA(t *testing.T, raw json.RawMessage) *sim.Outcome {
 	o := &sim.Outcome{}
 	var p APlan
@@ -301,6 +334,10 @@ func execA(t *testing.T, raw json.RawMessage) *sim.Outcome {
 		devPriv = keys.EC(256, "device")
 	} else {
 		rsaPriv = keys.RSA(p.Bits, p.Pos)
+		if p.KeyTag != "" {
+			rsaPriv = keys.RSASpecial(p.KeyTag)
+			p.Bits = rsaPriv.N.BitLen()
+		}
 		devPriv = rsaPriv
 	}
 	nb, na := sim.Epoch.Add(-24*time.Hour), sim.Epoch.Add(10*365*24*time.Hour)
@@ -415,7 +452,7 @@ func execA(t *testing.T, raw json.RawMessage) *sim.Outcome {
 			o.Logf("encoded message not below the modulus: skipped")
 			return o
 		}
-		c := new(big.Int).Exp(m, rsaPriv.D, rsaPriv.N)
+		c := rsaPrivate(rsaPriv, m)
 		sig = c.FillBytes(make([]byte, k))
 		// self-check of the harness: the crafted signature opens to the intended message
 		back := new(big.Int).Exp(c, big.NewInt(int64(rsaPriv.E)), rsaPriv.N).FillBytes(make([]byte, k))
@@ -533,9 +570,13 @@ func execA(t *testing.T, raw json.RawMessage) *sim.Outcome {
 			}
 			expect := chainOK && sigOK
 			got := aerr == nil
-			desc := fmt.Sprintf("bits=%d chain=%s window=%s t=+%ds hash=%s label=%s variant=%s mutation=%s critical_ext=%v genuine_device_attested_first=%v", p.Bits, p.Chain, p.DevWindow, at, p.Hash, p.Label, p.Variant, p.Mutation, p.CritExt, p.Prior)
+			tagDesc := ""
+			if rsaPriv != nil && p.KeyTag != "" {
+				tagDesc = fmt.Sprintf(" key=%s(e=%d)", p.KeyTag, rsaPriv.E)
+			}
+			desc := fmt.Sprintf("bits=%d"+tagDesc+" chain=%s window=%s t=+%ds hash=%s label=%s variant=%s mutation=%s critical_ext=%v genuine_device_attested_first=%v", p.Bits, p.Chain, p.DevWindow, at, p.Hash, p.Label, p.Variant, p.Mutation, p.CritExt, p.Prior)
 			o.Logf("attest %s -> accepted=%v expected=%v", desc, got, expect)
-			sigParts = append(sigParts, fmt.Sprintf("%d/%s/%s/%v/%s/%s/%s/%s/%v/%v", p.Bits, p.Chain, p.DevWindow, chainOK, p.Hash, p.Label, p.Variant, p.Mutation, p.Prior, got))
+			sigParts = append(sigParts, fmt.Sprintf("%d%s/%s/%s/%v/%s/%s/%s/%s/%v/%v", p.Bits, p.KeyTag, p.Chain, p.DevWindow, chainOK, p.Hash, p.Label, p.Variant, p.Mutation, p.Prior, got))
 			switch {
 			case got && !expect && !(undecided && chainOK):
 				why := "signature:" + p.Mutation + ":" + p.Label
@@ -547,6 +588,10 @@ func execA(t *testing.T, raw json.RawMessage) *sim.Outcome {
 				o.Fail("C06.rejected_valid", "rejected:"+p.Variant+":"+p.Hash, ci, "Attest refused a device-signed certificate chaining to the roots: %s: %v", desc, aerr)
 			case got:
 				o.Probe("accepted_valid_" + p.Variant)
+				if p.KeyTag != "" {
+					o.Probe("accepted_valid_special_key/" + p.KeyTag)
+					o.Probe("accepted_valid_special_key")
+				}
 			default:
 				if !chainOK && sigOK {
 					o.Probe("rejected_by_chain_or_clock")
